@@ -6,6 +6,7 @@ package main
 import (
 	"fmt"
 	"go/ast"
+	"go/token"
 	"go/types"
 	"math/big"
 	"strings"
@@ -95,6 +96,13 @@ func (e *Engine) execCall(st *State, fr *Frame, in *ssa.Call, b, prev *ssa.Basic
 		name := "invoke " + types.TypeString(cc.Value.Type(), nil) + "." + cc.Method.Name()
 		if h, ok := intrinsics[name]; ok {
 			fr.vals[in] = h(e, st, fr, append([]Value{iv}, args...), in)
+			return nil, true
+		}
+		// a method of a foreign dynamic type: it cannot reach the private state of this module; scalar
+		// results are arbitrary
+		if res := cc.Signature().Results(); res.Len() == 1 && isScalarType(res.At(0).Type()) {
+			e.usedIntrinsic("foreign interface method")
+			fr.vals[in] = foreignResult(st, iv, cc.Method.Name(), res.At(0).Type(), true)
 			return nil, true
 		}
 		e.fail("no model for %s", name)
@@ -340,6 +348,7 @@ func (e *Engine) applyContract(st *State, fr *Frame, fn *ssa.Function, c *Contra
 	}
 	// case split requested by the contract (conditional pointer results)
 	states := []*State{st}
+	var postSplits []ast.Expr // case splits over the results (nondeterministic outcomes such as a failing reader)
 	for _, sp := range c.Splits {
 		if !strings.HasPrefix(sp.Text, "case ") {
 			continue
@@ -347,6 +356,16 @@ func (e *Engine) applyContract(st *State, fr *Frame, fn *ssa.Function, c *Contra
 		ce, err := parseSpecExpr(strings.TrimPrefix(sp.Text, "case "))
 		if err != nil {
 			e.fail("%v", err)
+		}
+		mentionsResult := false
+		for _, id := range freeIdents(ce) {
+			if strings.HasPrefix(id, "result") {
+				mentionsResult = true
+			}
+		}
+		if mentionsResult {
+			postSplits = append(postSplits, ce)
+			continue
 		}
 		var next []*State
 		for _, s := range states {
@@ -369,8 +388,30 @@ func (e *Engine) applyContract(st *State, fr *Frame, fn *ssa.Function, c *Contra
 		}
 		states = next
 	}
+	// every combination of the result cases
+	type forced struct {
+		st    *State
+		force []ast.Expr
+	}
+	work := []forced{}
 	for _, s := range states {
-		res := e.applyPost(s, pre, fr, fn, c, args, site)
+		work = append(work, forced{s, nil})
+	}
+	for _, ps := range postSplits {
+		var next []forced
+		for _, w := range work {
+			s2 := w.st.fork()
+			next = append(next, forced{w.st, append(append([]ast.Expr{}, w.force...), ps)})
+			next = append(next, forced{s2, append(append([]ast.Expr{}, w.force...), &ast.UnaryExpr{Op: token.NOT, X: &ast.ParenExpr{X: ps}})})
+		}
+		work = next
+	}
+	for _, w := range work {
+		s := w.st
+		res := e.applyPost(s, pre, fr, fn, c, args, site, w.force...)
+		if s.infeasible() && len(w.force) > 0 {
+			continue
+		}
 		if s.infeasible() {
 			// vacuity guard: a callee postcondition that is syntactically contradictory in a feasible state
 			e.errors = append(e.errors, fmt.Sprintf("%s: postcondition of %s is contradictory at this call site (contract error)", e.curFunc, rel))
@@ -380,7 +421,7 @@ func (e *Engine) applyContract(st *State, fr *Frame, fn *ssa.Function, c *Contra
 	return outs
 }
 
-func (e *Engine) applyPost(st, pre *State, fr *Frame, fn *ssa.Function, c *Contract, args []Value, site string) Value {
+func (e *Engine) applyPost(st, pre *State, fr *Frame, fn *ssa.Function, c *Contract, args []Value, site string, force ...ast.Expr) Value {
 	_, rel := e.funcKey(fn)
 	env := e.specEnv(st, pre, fn, c, args)
 	e.varN++
@@ -451,6 +492,17 @@ func (e *Engine) applyPost(st, pre *State, fr *Frame, fn *ssa.Function, c *Contr
 			}
 		}
 		return false
+	}
+	for _, x := range force {
+		// the result case of this outcome (e.g. result1 == nil / !(result1 == nil))
+		if u, ok := x.(*ast.UnaryExpr); ok && u.Op == token.NOT {
+			if p, ok := u.X.(*ast.ParenExpr); ok {
+				if b, ok := p.X.(*ast.BinaryExpr); ok && b.Op == token.EQL {
+					x = &ast.BinaryExpr{X: b.X, Op: token.NEQ, Y: b.Y}
+				}
+			}
+		}
+		e.assumeEnsures(st, env, x, results, names)
 	}
 	for _, x := range conj {
 		if isResDef(x) {
@@ -619,7 +671,7 @@ func (e *Engine) symbolicResult(st *State, t types.Type, name string, fresh bool
 		}
 		return &SliceVal{elem: u.Elem(), off: mkInt64(0), length: mkInt64(0), capacity: mkInt64(0)}
 	case *types.Interface:
-		return &IfaceVal{null: mkVar(name+".isnil", SBool), tagT: mkIntVarR(name+".tag", nil, nil)}
+		return &IfaceVal{null: mkVar(name+".isnil", SBool), tagT: mkIntVarR(name+".tag", nil, nil), obj: name}
 	case *types.Array, *types.Struct:
 		// aggregate value result: fresh symbolic leaves
 		r := e.newRegion(name, t, true)
@@ -743,7 +795,20 @@ func (e *Engine) assumeEnsures(st *State, env *SpecEnv, x ast.Expr, results []Va
 				if rt.Op == "app" && rt.Name == "lift" && lt.Sort == SInt && lt.Op == "poly" && onlyFreshVars(lt) && !occurs(rt, lt) {
 					st.assume(mkEq(lt, rt))
 					st.addSubst(rt, lt)
+					// and the residue of the fresh polynomial is the residue it was lifted from
+					if tr := mkToRing(rt.Args[0].Sort, lt); tr.Op == "app" && tr.Name == "toring" && !occurs(tr, rt.Args[0]) {
+						st.addSubst(tr, rt.Args[0])
+					}
 					return
+				}
+				// `polynomial over the bytes of a fresh buffer == lift(residue)`: the residue of the byte
+				// polynomial is that residue (rewrite rule; the equation itself stays a hypothesis)
+				if rt.Op == "app" && rt.Name == "lift" && lt.Sort == SInt && lt.Op == "poly" && freshBytesPoly(lt) {
+					if tr := mkToRing(rt.Args[0].Sort, lt); tr.Op == "app" && tr.Name == "toring" && !occurs(tr, rt.Args[0]) {
+						st.assume(mkEq(lt, rt))
+						st.addSubst(tr, rt.Args[0])
+						return
+					}
 				}
 				st.assume(mkEq(lt, rt))
 				return
@@ -754,7 +819,7 @@ func (e *Engine) assumeEnsures(st *State, env *SpecEnv, x ast.Expr, results []Va
 				if ri := resultIndex(id.Name, names); ri >= 0 {
 					if iv, ok := results[ri].(*IfaceVal); ok {
 						if p, ok := env.eval(n.Y).(*PtrVal); ok && p.null {
-							results[ri] = &IfaceVal{null: tFalse, tagT: iv.tagT, tag: iv.tag}
+							results[ri] = &IfaceVal{null: tFalse, tagT: iv.tagT, tag: iv.tag, obj: iv.obj}
 							env.results = results
 							return
 						}
@@ -774,6 +839,31 @@ func (e *Engine) assumeEnsures(st *State, env *SpecEnv, x ast.Expr, results []Va
 				if knownFalse(st, g) {
 					return
 				}
+				// an undecided case whose consequence fixes the nil-ness of a pointer result cannot be
+				// represented by one outcome: the contract must split on it (`split case ...`)
+				if mentionsPtrResultNil(n.Args[1], results, names) {
+					e.fail("ensures %s: the condition is undecided at this call site and the consequence decides whether a pointer result is nil; add `split case` to the contract", exprString(n))
+				}
+			case "rewrite":
+				// rewrite(a, t): the equation a == t, used from here on as the rewrite rule a -> t
+				// (a must be an atom of the normal form that does not occur in t)
+				l, r := env.term(n.Args[0]), env.term(n.Args[1])
+				if l.Sort != r.Sort && modulusOf(l.Sort) != nil && r.Sort == SInt {
+					r = mkToRing(l.Sort, r)
+				}
+				l, r = st.sub(l), st.sub(r)
+				st.assume(mkEq(l, r))
+				if l.Op == "lin" {
+					if a := l.L.singleAtom(); a != nil {
+						l = a
+					}
+				}
+				if l.Sort == r.Sort && isAtomTerm(l) && !occurs(l, r) {
+					st.addSubst(l, r)
+				} else {
+					e.fail("rewrite(%s, ...): the left-hand side is not an atom independent of the right-hand side: %s / %s", exprString(n.Args[0]), trunc(pretty(l, 4), 300), trunc(pretty(r, 4), 300))
+				}
+				return
 			case "fact":
 				// a plain hypothesis: never oriented into a rewrite rule
 				t := st.sub(env.boolTerm(n.Args[0]))
@@ -821,6 +911,27 @@ func (e *Engine) assumeEnsures(st *State, env *SpecEnv, x ast.Expr, results []Va
 	st.assume(t)
 }
 
+func mentionsPtrResultNil(x ast.Expr, results []Value, names []string) bool {
+	found := false
+	ast.Inspect(x, func(n ast.Node) bool {
+		b, ok := n.(*ast.BinaryExpr)
+		if !ok || (b.Op != token.EQL && b.Op != token.NEQ) {
+			return true
+		}
+		id, ok := b.X.(*ast.Ident)
+		y, ok2 := b.Y.(*ast.Ident)
+		if ok && ok2 && y.Name == "nil" {
+			if ri := resultIndex(id.Name, names); ri >= 0 && ri < len(results) {
+				if _, isPtr := results[ri].(*PtrVal); isPtr {
+					found = true
+				}
+			}
+		}
+		return true
+	})
+	return found
+}
+
 func resultIndex(name string, names []string) int {
 	if name == "result" {
 		return 0
@@ -838,12 +949,21 @@ func resultIndex(name string, names []string) int {
 
 // definable: the term may be used as the left-hand side of a rewriting fact: a variable or an
 // abstraction atom (fm / app) -- i.e. an atom, not a compound polynomial.
+// isAtomTerm: a term the polynomial normal form treats as indivisible.
+func isAtomTerm(t *Term) bool {
+	switch t.Op {
+	case "var", "app", "select":
+		return true
+	}
+	return false
+}
+
 func definable(t *Term) bool {
 	switch t.Op {
 	case "var":
 		return strings.Contains(t.Name, "!")
 	case "app":
-		if t.Name == "fm" || t.Name == "pt" || t.Name == "aff" {
+		if t.Name == "fm" || t.Name == "pt" || t.Name == "aff" || t.Name == "os2ipn" {
 			has := false
 			t.walk(func(u *Term) {
 				if u.Op == "var" && strings.Contains(u.Name, "!") {
@@ -854,6 +974,19 @@ func definable(t *Term) bool {
 		}
 	}
 	return false
+}
+
+// freshBytesPoly: a polynomial all of whose atoms are elements of callee-created arrays.
+func freshBytesPoly(t *Term) bool {
+	if t.Op != "poly" {
+		return false
+	}
+	for _, a := range t.P.Atoms() {
+		if a.Op != "select" || a.Args[0].Op != "var" || !strings.Contains(a.Args[0].Name, "!") || !a.Args[1].IsConst() {
+			return false
+		}
+	}
+	return len(t.P.t) > 4
 }
 
 func onlyFreshVars(t *Term) bool {
@@ -1131,21 +1264,31 @@ func (e *Engine) checkCutsAt(st *State, fr *Frame, atReturn bool) {
 		} else if a.After != "" && st.binds[a.After] < a.AfterN {
 			ready = false
 		}
-		for _, id := range freeIdents(a.Expr) {
+		ids := freeIdents(a.Expr)
+		if a.Kind == "apply" {
+			// apply <label>@pos: lemma(args) -- only the arguments mention program variables
+			if c, ok := a.Expr.(*ast.CallExpr); ok {
+				ids = nil
+				for _, x := range c.Args {
+					ids = append(ids, freeIdents(x)...)
+				}
+			}
+		}
+		for _, id := range ids {
 			if _, ok := st.names[id]; ok && !st.weak[id] {
 				continue
 			}
 			if _, ok := fr.params[id]; ok {
 				continue
 			}
-			if _, ok := specConsts[id]; ok {
+			if _, ok := specConsts[id]; ok || id == "G" || id == "O" || id == "true" || id == "false" || id == "nil" {
 				continue
 			}
 			ready = false
 			break
 		}
 		if !ready {
-			if a.Kind == "assert" {
+			if a.Kind == "assert" || a.Kind == "apply" || a.Kind == "fork" {
 				continue
 			}
 			// cuts are ordered
@@ -1154,14 +1297,62 @@ func (e *Engine) checkCutsAt(st *State, fr *Frame, atReturn bool) {
 		st.cuts[a.Name] = true
 		env := e.specEnv(st, fr.old, fr.fn, fr.contract, nil)
 		env.vars = fr.params
-		g := strengthenPtGoal(st.sub(env.boolTerm(a.Expr)), true) // what is proved is what is assumed afterwards
-		if a.Kind == "assert" {
-			// intermediate lemma: proved here, then available (nothing is forgotten)
-			e.addObligation(st, fr, "assert", a.Name, g, a.Text)
-			st.assume(g)
+		if a.Kind == "apply" {
+			for _, h := range e.instantiateLemma(env, a) {
+				st.assume(h)
+			}
 			continue
 		}
-		e.addObligation(st, fr, "cut", a.Name, g, a.Text)
+		if a.Kind == "fork" {
+			if atReturn {
+				e.fail("fork %s: a case split cannot be placed at return", a.Name)
+			}
+			c := st.sub(env.boolTerm(a.Expr))
+			if !c.IsConst() && st.pendingFork == nil {
+				st.pendingFork = c
+			}
+			continue
+		}
+		g := strengthenPtGoal(st.sub(env.boolTerm(a.Expr)), true) // what is proved is what is assumed afterwards
+		if a.Kind == "assert" && len(a.Abstract) == 0 {
+			// intermediate lemma: proved here, then available (nothing is forgotten)
+			e.addObligation(st, fr, "assert", a.Name, g, a.Text)
+			if strings.Contains(a.Text, "rewrite(") {
+				e.assumeEnsures(st, env, a.Expr, nil, nil) // equations marked rewrite(..) become rules
+			} else {
+				st.assume(g)
+			}
+			continue
+		}
+		e.addObligation(st, fr, a.Kind, a.Name, g, a.Text)
+		// abstraction: the listed objects get fresh contents; all that is known about them afterwards is
+		// their type invariant (checked here for the current contents) and the lemma just proved
+		for _, ax := range a.Abstract {
+			cells, dyn := env.lvalueCells(ax)
+			for _, cr := range dedupeObjects(e, cells) {
+				for _, inv := range e.invariantsAt(st, cr.reg, cr.path, cr.typ, "") {
+					e.addObligation(st, fr, "inv", a.Name+":"+inv.label, inv.t, "type invariant of "+inv.label+" before abstraction")
+				}
+			}
+			tag := e.freshName("abs." + a.Name)
+			for _, cr := range cells {
+				e.havocCell(st, cr, tag)
+			}
+			for _, d := range dyn {
+				e.havocDyn(st, d, tag)
+			}
+			for _, cr := range dedupeObjects(e, cells) {
+				for _, inv := range e.invariantsAt(st, cr.reg, cr.path, cr.typ, "") {
+					st.assume(inv.t)
+				}
+			}
+		}
+		if a.Kind == "assert" {
+			st.subMemo = nil
+			st.memoShared = false
+			e.assumeEnsures(st, env, a.Expr, nil, nil)
+			continue
+		}
 		// forget everything but entry assumptions and cut lemmas
 		keep := st.hyps[:st.entryH:st.entryH]
 		st.hyps = append([]*Term{}, keep...)
@@ -1176,6 +1367,10 @@ func (e *Engine) checkCutsAt(st *State, fr *Frame, atReturn bool) {
 		}
 		st.subMemo = nil
 		st.memoShared = false
+		st.nonzero = map[string]bool{}
+		for k := range st.entryNonzero {
+			st.nonzero[k] = true
+		}
 		// the lemma is re-evaluated over the raw current state (no rewrite rules) and assumed conjunct by
 		// conjunct at the expression level, so that definitions are oriented afresh.  (It is equivalent to the
 		// proved form, which was the same statement with equals substituted for equals.)
@@ -1230,4 +1425,19 @@ func (e *Engine) hasNestedSpecs(t types.Type) bool {
 		}
 	}
 	return false
+}
+
+// foreignResult: the scalar result of the n-th call of a method of a foreign object (a symbol that depends on
+// the object, the method and the call ordinal only, so that contracts can refer to it).
+func foreignResult(st *State, iv *IfaceVal, method string, t types.Type, advance bool) *Term {
+	key := "foreign:" + iv.obj + "." + method
+	n := int64(1)
+	if v, ok := st.ghost[key]; ok {
+		n = v.(*Term).Val.Int64()
+	}
+	if advance {
+		st.ghost[key] = mkInt64(n + 1)
+	}
+	lo, hi := intRange(t)
+	return mkIntVarR(fmt.Sprintf("foreign$%s.%s#%d", iv.obj, method, n), lo, hi)
 }
